@@ -7,9 +7,10 @@ from lib.core import *
 
 ID = "C10"
 PROPS_FILES = ["Gama/Props/C10.lean", "Gama/Props/C10YSign.lean", "Gama/Props/C10HomSites.lean",
-               "Gama/Props/C10Accept.lean", "Gama/Props/C10Net.lean", "Gama/Props/C10Aliased.lean"]
+               "Gama/Props/C10Accept.lean", "Gama/Props/C10Net.lean", "Gama/Props/C10Aliased.lean",
+               "Gama/Props/C10PeWitness.lean"]
 LEAN_TARGETS = ["Gama.Props.C10", "Gama.Props.C10YSign", "Gama.Props.C10HomSites",
-                "Gama.Props.C10Accept", "Gama.Props.C10Net", "Gama.Props.C10Aliased"]
+                "Gama.Props.C10Accept", "Gama.Props.C10Net", "Gama.Props.C10Aliased", "Gama.Props.C10PeWitness"]
 DRIVERS = ["drv_cov"]
 RULE = ("CovMat/BandMat index maps for every dim 1..8 x band 0..dim-1 (exhaustive); band LDL' / Cholesky / forward "
         "substitution on SPD matrices L L' built from small integers, every band; Cluster::activeCov for EVERY active "
